@@ -1890,6 +1890,7 @@ enum Enum<T, K> {
 */
 
 #![cfg_attr(docsrs, feature(doc_auto_cfg))]
+#![cfg_attr(magiclen_educe_verif, allow(unused_imports))]
 
 mod common;
 #[allow(dead_code)]
@@ -1899,6 +1900,7 @@ mod trait_handlers;
 
 use std::collections::HashMap;
 
+#[cfg(not(magiclen_educe_verif))]
 use proc_macro::TokenStream;
 use supported_traits::Trait;
 use syn::{
@@ -2115,6 +2117,12 @@ fn derive_input_handler(ast: DeriveInput) -> syn::Result<proc_macro2::TokenStrea
     Ok(token_stream)
 }
 
+#[cfg(magiclen_educe_verif)]
+pub fn educe_verif_expand(input: proc_macro2::TokenStream) -> syn::Result<proc_macro2::TokenStream> {
+    derive_input_handler(syn::parse2::<DeriveInput>(input)?)
+}
+
+#[cfg(not(magiclen_educe_verif))]
 #[proc_macro_derive(Educe, attributes(educe))]
 pub fn educe_derive(input: TokenStream) -> TokenStream {
     struct MyDeriveInput(proc_macro2::TokenStream);
